@@ -47,6 +47,8 @@ var asgRepl = map[token.Token][]string{
 	token.AND_NOT_ASSIGN: {"&="},
 }
 
+var ops2 = os.Getenv("MUTGEN_OPS") == "2"
+
 func main() {
 	root := os.Args[1]
 	var out []Mut
@@ -64,6 +66,9 @@ func main() {
 	enc := json.NewEncoder(os.Stdout)
 	for i := range out {
 		out[i].ID = fmt.Sprintf("M%05d", i)
+		if ops2 {
+			out[i].ID = fmt.Sprintf("N%05d", i)
+		}
 		enc.Encode(out[i])
 	}
 }
@@ -85,6 +90,84 @@ func mutate(root, path string) []Mut {
 	add := func(s, e token.Pos, repl, op string) {
 		so, eo := off(s), off(e)
 		out = append(out, Mut{File: rel, Start: so, End: eo, Repl: repl, Orig: string(src[so:eo]), Line: fset.Position(s).Line, Func: fn, Op: op})
+	}
+	text := func(n ast.Node) string { return string(src[off(n.Pos()):off(n.End())]) }
+	if ops2 {
+		// second family: operand swaps, index and slice bounds +-1, len -> cap / len-1, return values, if/else bodies
+		var results *ast.FieldList
+		ast.Inspect(f, func(n ast.Node) bool {
+			switch x := n.(type) {
+			case *ast.FuncDecl:
+				fn = x.Name.Name
+				results = x.Type.Results
+			case *ast.GenDecl:
+				if x.Tok == token.IMPORT {
+					return false
+				}
+			case *ast.BinaryExpr:
+				switch x.Op {
+				case token.SUB, token.QUO, token.REM, token.SHL, token.SHR, token.AND_NOT:
+					add(x.Pos(), x.End(), "("+text(x.Y)+") "+x.Op.String()+" ("+text(x.X)+")", "swap operands of "+x.Op.String())
+				}
+			case *ast.IndexExpr:
+				add(x.Index.Pos(), x.Index.End(), "("+text(x.Index)+")+1", "index+1")
+				add(x.Index.Pos(), x.Index.End(), "("+text(x.Index)+")-1", "index-1")
+			case *ast.SliceExpr:
+				if x.Low != nil {
+					add(x.Low.Pos(), x.Low.End(), "("+text(x.Low)+")+1", "slice low+1")
+				}
+				if x.High != nil {
+					add(x.High.Pos(), x.High.End(), "("+text(x.High)+")-1", "slice high-1")
+					add(x.High.Pos(), x.High.End(), "("+text(x.High)+")+1", "slice high+1")
+				}
+			case *ast.CallExpr:
+				if id, ok := x.Fun.(*ast.Ident); ok && len(x.Args) == 1 {
+					if id.Name == "len" {
+						add(x.Pos(), x.End(), "cap("+text(x.Args[0])+")", "len->cap")
+						add(x.Pos(), x.End(), "(len("+text(x.Args[0])+")-1)", "len-1")
+						add(x.Pos(), x.End(), "(len("+text(x.Args[0])+")+1)", "len+1")
+					}
+					if id.Name == "cap" {
+						add(x.Pos(), x.End(), "len("+text(x.Args[0])+")", "cap->len")
+					}
+				}
+				if id, ok := x.Fun.(*ast.Ident); ok && id.Name == "make" && len(x.Args) == 2 {
+					add(x.Args[1].Pos(), x.Args[1].End(), "("+text(x.Args[1])+")+1", "make len+1")
+				}
+				if len(x.Args) == 2 { // swap the two arguments (kept if the types allow it)
+					if sel, ok := x.Fun.(*ast.SelectorExpr); !ok || sel.Sel.Name != "Sprintf" {
+						add(x.Args[0].Pos(), x.Args[1].End(), text(x.Args[1])+", "+text(x.Args[0]), "swap call arguments")
+					}
+				}
+			case *ast.ReturnStmt:
+				if len(x.Results) == 2 {
+					add(x.Results[0].Pos(), x.Results[1].End(), text(x.Results[1])+", "+text(x.Results[0]), "swap return values")
+				}
+				for i, r := range x.Results {
+					if results == nil || i >= len(results.List) {
+						continue
+					}
+					if id, ok := results.List[i].Type.(*ast.Ident); ok {
+						switch id.Name {
+						case "int", "int32", "int64", "uint64", "uint32":
+							add(r.Pos(), r.End(), "("+text(r)+")+1", "return+1")
+							if text(r) != "0" {
+								add(r.Pos(), r.End(), "0", "return 0")
+							}
+						}
+					}
+				}
+			case *ast.IfStmt:
+				if blk, ok := x.Else.(*ast.BlockStmt); ok && x.Init == nil {
+					add(x.Pos(), x.End(), "if !("+text(x.Cond)+") "+text(x.Body)+" else "+text(blk), "negate if condition")
+				}
+			case *ast.RangeStmt:
+				// iterate one element less
+				add(x.X.Pos(), x.X.End(), "("+text(x.X)+")[1:]", "range skips first")
+			}
+			return true
+		})
+		return out
 	}
 	litCount := map[*ast.CompositeLit]int{}
 	var stack []ast.Node
